@@ -30,6 +30,10 @@ pub struct HookState {
     pub trace: Option<String>,
     pub log: Vec<ProbeRecord>,
     pub mismatches: Vec<ProbeRecord>,
+    /// look-ahead successes seen by `skip_token`: (source buffer address, position, rule index) -> length
+    pub claims: std::collections::HashMap<(usize, usize, usize), usize>,
+    /// real-mode results that contradict an earlier look-ahead success at the same position by the same rule
+    pub contradicted: Vec<ProbeRecord>,
 }
 
 thread_local! {
@@ -76,6 +80,23 @@ impl Drop for Frame {
             if let Some(t) = s.trace.as_mut() { if t.len() < 2_000_000 { t.push_str(",x"); } }
         });
     }
+}
+
+/// `skip_token` saw `rule_idx` succeed in look-ahead mode at `pos` with length `len`
+pub fn claim(src: usize, pos: usize, rule_idx: usize, len: usize) {
+    STATE.with(|s| { let mut s = s.borrow_mut(); if s.claims.len() < 1_000_000 { s.claims.insert((src, pos, rule_idx), len); } });
+}
+
+/// the real tokenizer ran `rule_idx` at `pos`: compare with an earlier look-ahead success there
+pub fn real_result(src: usize, pos: usize, rule_idx: usize, extent: Option<usize>) {
+    STATE.with(|s| {
+        let mut s = s.borrow_mut();
+        if let Some(len) = s.claims.get(&(src, pos, rule_idx)).copied() {
+            if extent != Some(len) && s.contradicted.len() < 64 {
+                s.contradicted.push(ProbeRecord { inline: true, rule_idx, at: pos, silent: Some(len), real: extent, silent_kept_tree: true, silent_kept_pos: true });
+            }
+        }
+    });
 }
 
 pub fn tree_size(node: &Node) -> usize {
